@@ -1,22 +1,23 @@
 SPEC = dict(
     id="C15",
-    level_text=("Lean 4 theorems over a byte-level model (List UInt8) of MaskStringLiterals / UnmaskStringLiterals / "
-                "stripSQLComments and a reference lexer SqlLex. Proved for ALL inputs: C15_mask_partition (masker spans "
-                "partition the input), C15_strip_outside (stripSQLComments copies every byte outside ITS comment spans "
-                "unchanged, one space per block span). The three clauses of the property are FALSE of the code in "
-                "general (14 confirmed classes, one Lean witness theorem and one harness monitor each) and are proved "
-                "on explicit decidable classes: C15_agree_partial (kClassM s = 0: masker literal/identifier spans = "
-                "SqlLex's), C15_strip_agree_partial (kClassS t = 0: stripper comment spans = SqlLex's on literal-free "
-                "text), C15_roundtrip_partial (no masked quoted identifier and no '__' in the text). For ALL inputs at token level: "
-                "C15_roundtrip_tokens (placeholders as atoms: first-occurrence / replace-all restoration returns the input; "
-                "quoted identifiers share a placeholder only when byte-identical, map key tied to the source by "
-                "C15_ident_dedup_key_tied). Only VALIDATED, not "
-                "proved: the round trip on the larger class 'no STR_/IDENT_ fragment' (never failed in the harness), "
-                "the composition mask-then-strip on one string (monitored on every generated string), and SqlLex = "
-                "DuckDB's lexer (generated select-lists are evaluated in DuckDB and must return the generator's "
-                "expected column names and values). The model is diffed against the real functions on every string."),
+    level_text=("Tree at 64dff5c. Lean 4 theorems over a byte-level model (List UInt8) of MaskStringLiterals / "
+                "UnmaskStringLiterals (single-pass strings.NewReplacer) / stripSQLComments / scanSQLFeatures and a "
+                "reference lexer SqlLex. Proved for ALL inputs: C15_mask_partition (masker segments partition the "
+                "input), C15_strip_outside (stripSQLComments copies every byte outside ITS comment spans unchanged, "
+                "one space per block span). The three clauses of the property are still FALSE of the code on 9 "
+                "confirmed classes (one Lean witness theorem and one harness monitor each) and are proved on "
+                "explicit decidable classes: C15_agree_partial (kClassM s = 0: the masker's segmentation — literals, "
+                "quoted identifiers and the comments it copies through — IS SqlLex's; excluded: `$`/`e'` decided by "
+                "the previous byte, `--` comment ended by CR), C15_strip_agree_partial (kClassS t = 0: stripper "
+                "comment spans = SqlLex's on literal-free text; excluded: CR, nesting, one byte after a block "
+                "comment), C15_roundtrip_partial (kClassP s = 0: no STR_/IDENT_ fragment OUTSIDE literals and quoted "
+                "identifiers ⇒ unmask(mask s) = s, quoted identifiers with exact-match de-duplication and literals "
+                "whose content spells a placeholder included). Only VALIDATED, not proved: the composition "
+                "mask-then-strip on one string (monitored on every generated string) and SqlLex = DuckDB's lexer "
+                "(generated select-lists are evaluated in DuckDB and must return the generator's expected column "
+                "names and values). The model is diffed against the real functions on every string."),
     level_note="proof (partial): full statements are refuted by witnesses; partial theorems on decidable classes",
-    technique="Lean 4 proofs over a byte-level model of the masker / unmasker / comment stripper and a reference lexer; regenerated placeholder formats, identifier de-duplication key, unmask modes and mask-before-strip call order; differential correspondence against the real functions; DuckDB as ground truth for token boundaries",
+    technique="Lean 4 proofs over a byte-level model of the masker / unmasker / comment stripper and a reference lexer; regenerated placeholder formats, identifier de-duplication key, single-pass unmask shape and mask-before-strip call order; differential correspondence against the real functions; DuckDB as ground truth for token boundaries",
     factgen=True,
     hooks={"internal/api": "go/hooks/api_c15"},
     harnesses=[dict(name="c15", tags="verif duckdb_arrow", timeout=dict(quick=900, thorough=3000))],
@@ -24,7 +25,7 @@ SPEC = dict(
         "SqlLex (Arc/Model/C15.lean: lTok) is a hand-written copy of the token classes of DuckDB's Postgres-derived scanner ('..' with '' only, E'..' with backslash escapes, \"..\", $tag$..$tag$ with non-ASCII tags, -- to LF or CR, nested /* */, `$` and bytes >= 0x80 as identifier characters); it is validated, not proved, against DuckDB by evaluating generated select-lists",
         "adjacent-literal continuation ('a' <newline> 'b' is one constant for DuckDB) and the x'..'/b'..'/N'..'/U&'..' prefixes are treated as separate raw bytes + plain literal on both sides",
         "the Go ports of mSegs/lSegs/sSegs/kClass* in go/harness/c15/lex.go (used by the monitors) are tied to the Lean definitions by the per-string output diff",
-        "Go strings.Replace / strings.ReplaceAll / strings.Index semantics as modelled by replaceFirst / replaceAll / splitSub (validated by the diff, incl. a stream of arbitrary text/mask pairs)",
+        "Go strings.NewReplacer(...).Replace (leftmost position, first-listed matching key, no rescan) and strings.Index semantics as modelled by unmaskF / findMask / splitSub (validated by the diff, incl. a stream of arbitrary text/mask pairs)",
     ],
     assumptions=[
         "callers pass scanSQLFeatures(sql).hasQuotes / hasDashComment||hasBlockComment as the fast-path flags (the model's normalize does; factgen checks only the call order)",
